@@ -17,6 +17,10 @@ RULE = (
     "MSM numbers included). distinct = blake2b(payload, helper); non-trivial = MSM with >= 1 satellite / 4076_201 "
     "with >= 1 coefficient / a message for which the helper must return nothing"
 )
+RULE += (
+    " Also: the helper on the same payload under both label options; parse_4076_201 against the message's"
+    ' OWN flat attributes for arbitrary degree / order fields (incl. order > degree).'
+)
 ASSUMPTIONS = ["dictionary key spellings of the 4076_201 helper are not pinned: the layer height value and the two "
                "coefficient lists must be present in each layer's entry"]
 GATES = ["msm_helper_checked", "harm_helper_checked", "other_checked", "reserved_msm_numbers_checked",
